@@ -193,7 +193,7 @@ def make_case(rc):
     reprs = C.clist(['(%s, %s)' % (C.cfloat(f), C.cstr(repr(f))) for f in sorted(fl, key=repr)])
     coq = 'CF (%s) %s %s (%s) %s' % (source, cells_coq, reprs, it, C.cres(iv))
     nt = sum(formula.count(o) for o in '+-*/&<>=%') >= 3
-    return {'recipe': rc, 'coq': coq, 'key': (formula, sorted(ov.items(), key=repr)), 'nontrivial': nt}
+    return {'recipe': rc, 'coq': coq, 'key': (formula, sorted(ov.items(), key=repr)), 'nontrivial': nt, 'leak': leak}
 
 
 # ---------------------------------------------------------------- generators
@@ -329,6 +329,10 @@ def run(R, tier):
                 seen2.add(rc['formula'])
                 out.append(make_case(rc))
         return out
+    for c in cases:
+        if c.get('leak'):
+            # decided on the implementation alone (the model's lexer is regenerated from the same source and cannot disagree with it)
+            R.violation('operator formula %s: %s' % (c['recipe'].get('formula'), c['leak']), {'recipe': c['recipe'], 'input_found': True})
     C.correspond(R, HEADER, 'report', cases, 'c01', 'lexer + token-set parser + ExpressionTokenTranslator/OperandTokenTranslator/LiteralToken + runtime operators',
                  shard=300, search=search)
     R.assumptions += ['Python\'s own grouping of the emitted text is observed with ast.parse on every case and compared with the model\'s regroup',
